@@ -84,6 +84,10 @@ def check_cfg(ctx, fx, cfg):
     # R15.2 handle-building sites
     import loops
     births = {"call:" + f["parent"] for f, _k in loops.find_loops(fx)}  # create_loop / create_loop_on_stream hand out the address created at birth
+    # ... and so do the crate's spawn entry points (they return the address of the loop they spawned)
+    import nfa as _nfa
+    for g, _bi, _t in graph.all_calls(fx, _nfa.trait_method("actor::spawner::Spawner", "spawn_actor")):
+        births.add("call:" + g.get("root", g["def"]))
     n = 0
     for f in fx.d["fns"]:
         b = ctx.body(fx, f)
